@@ -1,7 +1,7 @@
 """C03 - the result is the unique least-action (Schrieffer-Wolff) transformation."""
 from .common import Decision, run_units
 from .series_props import fold_canaries
-from .hermitian_common import specs_hermitian, LEAN_SETTING_NOTE
+from .hermitian_common import specs_hermitian, LEAN_SETTING_NOTE, LEAN_VACUITY
 
 LEAN = ["PV.C03_unique", "PV.lsa_unique", "PV.code_least_action", "PV.C03_gauge", "PV.C02_adjoint", "PV.C02_unit_left", "PV.C01_similarity", "PV.C01_eliminated",
         "PV.TB.toMain", "PV.TB.C03_gauge", "PV.TB.C03_unique", "PV.TB.same_as_general"]
@@ -10,7 +10,7 @@ LEAN = ["PV.C03_unique", "PV.lsa_unique", "PV.code_least_action", "PV.C03_gauge"
 def check(tier, seed):
     d = Decision("C03", tier, seed)
     d.add_units(fold_canaries(run_units(specs_hermitian(tier))))
-    d.add_lean(LEAN)
+    d.add_lean(LEAN + LEAN_VACUITY)
     d.assumptions += [LEAN_SETTING_NOTE]
     d.assumptions += ["uniqueness theorem hypothesis Gapped(H0): order by order the map v -> H0 v - v H0 is injective on elements without kept part; for the "
                       "diagonal H0 of block_diagonalize this is 'energies of every eliminated pair differ', established on the real code by the PyVC obligations "
